@@ -25,7 +25,9 @@
 (*         as a set of strings naming every failing link).                   *)
 (* Part 3: the documented generator (link rule of ref-files.rst,             *)
 (*         skool-macros.rst #R, html-templates.rst) over abstract sites      *)
-(*         built by constructor actions; model-checked by Site_mc.cfg.       *)
+(*         built by constructor actions; model-checked by Site_mc.cfg, and   *)
+(*         (Site_sim.cfg) simulated to give the harness abstract sites whose  *)
+(*         rendering is compared page by page with DocFile (ModelDiff).      *)
 (***************************************************************************)
 EXTENDS Integers, Sequences, FiniteSets, TLC
 
